@@ -14,6 +14,7 @@
    direction the segment has extent or lies strictly below the last node. *)
 From Coq Require Import ZArith List Bool Reals Lra Field QArith.
 From V Require Import Base.FieldSig Base.Arr Base.ExecQ Model.Source Proofs.Source Proofs.SourceAlg.
+From V Require Import Model.SourceHist Proofs.SourceHist.
 Local Open Scope R_scope.
 
 (* ---- cell_spread_unity: (ey+ry)(ez+rz) = 1, any field ---- *)
@@ -351,3 +352,65 @@ Example zero_strength_hypothesis_satisfiable :
   source_scale Rleb PI 1 None (0, 0) false 3 = Some (0, 0).
 Proof. exact ex_zero_strength. Qed.
 Print Assumptions zero_strength_hypothesis_satisfiable.
+
+(* ---- get_source_field on ONE source instance, ALL request histories
+        (Model/SourceHist.v: explicit heap, so aliasing is inside the model).
+        Requests on any grids / frequencies (real-valued ones scale the array
+        they return IN PLACE), interleaved with in-place edits of previously
+        RETURNED arrays by the caller.  [memo = false] is the code as pinned
+        (nothing is kept with the instance; read off on every run by the ast
+        anchor of py/props/c10.py).  Every request returns scale f (vecof g):
+        a function of (grid, source, frequency) only; returned arrays are
+        pairwise distinct cells, none is the array kept with the instance, and
+        each holds what was returned changed only by the caller's own edits. ---- *)
+Section History.
+  Variables (Grid Freq Ed Vec : Type) (vdef : Vec).
+  Variable geqb : Grid -> Grid -> bool.
+  Variable is_real : Freq -> bool.
+  Variable vecof : Grid -> Vec.
+  Variable scale : Freq -> Vec -> Vec.
+  Variable edit : Ed -> Vec -> Vec.
+  Hypothesis geqb_true : forall a b, geqb a b = true -> a = b.
+
+  Theorem source_field_history_independent copy_out (ops : list (Op Grid Freq Ed)) :
+    let r := run Grid Freq Ed Vec geqb is_real vecof scale edit false copy_out (st0 Grid Vec vdef) ops in
+    snd r = List.map (spec_obs Grid Freq Ed Vec vecof scale) ops /\
+    List.map (heap _ _ (fst r)) (outs _ _ (fst r)) = spec_outs Grid Freq Ed Vec vecof scale edit nil ops /\
+    List.NoDup (outs _ _ (fst r)) /\
+    kept _ _ (fst r) = None.
+  Proof.
+    intro r.
+    destruct (history_independent_gen Grid Freq Ed Vec vdef geqb is_real vecof scale edit geqb_true
+                false copy_out ops (or_introl eq_refl)) as (H1 & H2 & H3 & _).
+    exact (conj H1 (conj H2 (conj H3
+      (run_keeps_nothing Grid Freq Ed Vec geqb is_real vecof scale edit copy_out ops (st0 Grid Vec vdef) eq_refl)))).
+  Qed.
+
+  (* a vector kept with the instance is fine as long as it is handed out as a copy *)
+  Theorem kept_vector_with_copy_history_independent (ops : list (Op Grid Freq Ed)) :
+    let r := run Grid Freq Ed Vec geqb is_real vecof scale edit true true (st0 Grid Vec vdef) ops in
+    snd r = List.map (spec_obs Grid Freq Ed Vec vecof scale) ops /\
+    List.map (heap _ _ (fst r)) (outs _ _ (fst r)) = spec_outs Grid Freq Ed Vec vecof scale edit nil ops /\
+    List.NoDup (outs _ _ (fst r)) /\
+    (forall g id, kept _ _ (fst r) = Some (g, id) ->
+       ~ List.In id (outs _ _ (fst r)) /\ heap _ _ (fst r) id = vecof g).
+  Proof.
+    exact (history_independent_gen Grid Freq Ed Vec vdef geqb is_real vecof scale edit geqb_true
+             true true ops (or_intror eq_refl)).
+  Qed.
+End History.
+Print Assumptions source_field_history_independent.
+Print Assumptions kept_vector_with_copy_history_independent.
+
+(* non-vacuity / the excluded class: vector kept with the instance and the STORED
+   array handed out; one grid, scaling = times 3, requests real, real, complex:
+   3, 9, 27 instead of 3, 3, 3 (the pinned machine and the copying one give 3, 3, 3) *)
+Example kept_vector_without_copy_refuted :
+  ex_run true false (Request _ _ _ tt true :: Request _ _ _ tt true :: Request _ _ _ tt false :: nil)%list
+  = (Some 3%Z :: Some 9%Z :: Some 27%Z :: nil)%list /\
+  ex_run false false (Request _ _ _ tt true :: Request _ _ _ tt true :: Request _ _ _ tt false :: nil)%list
+  = (Some 3%Z :: Some 3%Z :: Some 3%Z :: nil)%list /\
+  ex_run true true (Request _ _ _ tt true :: Request _ _ _ tt true :: Request _ _ _ tt false :: nil)%list
+  = (Some 3%Z :: Some 3%Z :: Some 3%Z :: nil)%list.
+Proof. exact memo_alias_refuted_lemma. Qed.
+Print Assumptions kept_vector_without_copy_refuted.
